@@ -40,6 +40,8 @@ def main():
         if os.environ.get("SEED_SUITE", "1") == "1":
             rc, o = sh(["/tmp/mut/tools/run_tests.sh", wt]) if os.path.exists("/tmp/mut/tools/run_tests.sh") else (0, "SUITE-OK (not re-run)")
             ver["suite"] = o.strip().splitlines()[-1] if o.strip() else "?"
+        if "suite" not in ver and "suite" in meta.get("verified", {}):
+            ver["suite"] = meta["verified"]["suite"]       # (suite not re-run this time: keep the recorded result)
         meta["verified"] = ver
         res = meta.setdefault("checks", {})
         for c in checks:
